@@ -485,8 +485,9 @@ def run_check(plug: Plugin, tier: str, seed: int, level_note=""):
         "wall_s": round(wall, 2),
         "violations": violations,
     }
-    os.makedirs(os.path.join(ROOT, "evidence"), exist_ok=True)
-    json.dump(ev, open(os.path.join(ROOT, "evidence", f"{pid}.json"), "w"), indent=1, ensure_ascii=False)
+    evdir = os.environ.get("VERIF_EVIDENCE_DIR") or os.path.join(ROOT, "evidence")  # override: developer tools only (seed matrix)
+    os.makedirs(evdir, exist_ok=True)
+    json.dump(ev, open(os.path.join(evdir, f"{pid}.json"), "w"), indent=1, ensure_ascii=False)
     log(f"[{pid}] {tier}: {evaluations} evaluated, {len(nontriv)} non-trivial, {len(diff)} diffs, {len(bad)} failures, "
         f"obligations {obl['discharged']}/{obl['obligations']}, {wall:.1f}s, rc={rc}")
     return rc
